@@ -78,7 +78,7 @@ class Gen:
             if scope == "pre_run":      # no report location exists yet: pre_run fixtures cannot log (only marks here)
                 setup, teardown = self.marks(), self.marks()
             else:
-                setup, teardown = self.script(cf, allow_spawn=False), self.script(cf, allow_spawn=False)
+                setup, teardown = self.script(cf), self.script(cf)
             fxs.append({"name": name, "scope": scope, "params": params, "per_thread": per_thread, "generator": gen,
                         "setup": setup + [["use", p] for p in params if p != "fixture_name"],
                         "teardown": teardown if gen else []})
@@ -93,13 +93,13 @@ class Gen:
         cf = self.p["fail_in_hooks"]
         if self.chance("p_hook"):
             args = [f for f in suite_fx if self.rng.random() < 0.3]
-            hooks["setup_suite"] = {"args": args, "script": self.script(cf, allow_spawn=False) + [["use", a] for a in args]}
+            hooks["setup_suite"] = {"args": args, "script": self.script(cf) + [["use", a] for a in args]}
         if self.chance("p_hook"):
-            hooks["teardown_suite"] = self.script(cf, allow_spawn=False)
+            hooks["teardown_suite"] = self.script(cf)
         if self.chance("p_hook"):
-            hooks["setup_test"] = self.script(cf, allow_spawn=False)
+            hooks["setup_test"] = self.script(cf)
         if self.chance("p_hook"):
-            hooks["teardown_test"] = self.script(cf, allow_spawn=False)
+            hooks["teardown_test"] = self.script(cf)
         injected = [f for f in suite_fx if self.chance("p_inject") and self.rng.random() < 0.5]
         tests = []
         force_empty = depth > 1 and self.chance("p_empty_suite")      # a suite left without tests and sub-suites
